@@ -72,6 +72,13 @@ class ExprMixin:
                     if isinstance(a, TTuple) and len(a.elems) == len(v.ty.elems):
                         comps = [self.coerce(SV(e, v.ty.get(v.t, j)), a.elems[j]).t for j, e in enumerate(v.ty.elems)]
                         return SV(ty, ty.inject(k, a.mk(*comps)))
+            if i is None and isinstance(v.ty, TUnion) and all(ty.index_of(a) is not None for a in v.ty.alts):
+                # a narrower union into a wider one: alternative by alternative
+                t = None
+                for k, a in reversed(list(enumerate(v.ty.alts))):
+                    inj = ty.inject(ty.index_of(a), None if a is TNone else v.ty.project(v.t, k))
+                    t = inj if t is None else z3.If(v.ty.is_alt(v.t, k), inj, t)
+                return SV(ty, t)
             if i is None:
                 raise Unsupported(f"cannot coerce {v.ty} to {ty}", node)
             return SV(ty, ty.inject(i, v.t))
